@@ -1,1 +1,363 @@
-//! shared helpers for the checks in this crate
+//! shared helpers for the checks in this crate (C16, C19)
+
+pub mod endpoints;
+
+use std::fmt::Write as _;
+
+use serde::{Deserialize, Serialize};
+
+/// The C16 field alphabet (DESIGN §3 C16): `a / % ? # + & = space é . : \`` plus the
+/// multi-character symbol `%2F` (an already percent-encoded slash, the shortest input on which a
+/// missing `%` in the path encode set is visible — DESIGN §4 #10). Simplest first.
+pub const ALPHABET: [&str; 14] =
+    ["a", "/", "%", "?", "#", "+", "&", "=", " ", "é", ".", ":", "`", "%2F"];
+
+/// All strings of `0..=max_len` symbols over `alphabet`, length-then-lexicographic.
+pub fn strings_upto(alphabet: &[&str], max_len: usize) -> Vec<String> {
+    let mut out = vec![];
+    engine::for_all_strings(alphabet, max_len, &mut |s| out.push(s.to_owned()));
+    out
+}
+
+// ---------------------------------------------------------------------------------------
+// "standard routing": segment-wise template match + percent-decoding of captured segments.
+// Written here from RFC 3986 §2.1 (pct-encoded = "%" HEXDIG HEXDIG); nothing of ruma or of the
+// percent-encoding crate is used on the receiving side.
+
+fn hex(b: u8) -> Option<u8> {
+    match b {
+        b'0'..=b'9' => Some(b - b'0'),
+        b'a'..=b'f' => Some(b - b'a' + 10),
+        b'A'..=b'F' => Some(b - b'A' + 10),
+        _ => None,
+    }
+}
+
+/// Percent-decode one path segment. A `%` not followed by two hex digits is kept literally (what
+/// the usual routers do); a decoded byte sequence that is not UTF-8 makes the segment unroutable.
+pub fn percent_decode(seg: &str) -> Option<String> {
+    let b = seg.as_bytes();
+    let mut out = Vec::with_capacity(b.len());
+    let mut i = 0;
+    while i < b.len() {
+        if b[i] == b'%' && i + 2 < b.len() {
+            if let (Some(h), Some(l)) = (hex(b[i + 1]), hex(b[i + 2])) {
+                out.push(h * 16 + l);
+                i += 3;
+                continue;
+            }
+        }
+        out.push(b[i]);
+        i += 1;
+    }
+    String::from_utf8(out).ok()
+}
+
+/// Match `path` (the path component of the request URI) against a ruma path template
+/// (`/_matrix/x/:arg/y`), segment by segment; returns the percent-decoded captures.
+pub fn route(template: &str, path: &str) -> Option<Vec<String>> {
+    let t: Vec<&str> = template.split('/').collect();
+    let p: Vec<&str> = path.split('/').collect();
+    if t.len() != p.len() {
+        return None;
+    }
+    let mut caps = vec![];
+    for (ts, ps) in t.iter().zip(&p) {
+        if ts.starts_with(':') {
+            caps.push(percent_decode(ps)?);
+        } else if ts != ps {
+            return None;
+        }
+    }
+    Some(caps)
+}
+
+/// Route against every template of an endpoint; the first match wins.
+pub fn route_any<'a>(templates: impl Iterator<Item = &'a str>, path: &str) -> Option<Vec<String>> {
+    for t in templates {
+        if let Some(c) = route(t, path) {
+            return Some(c);
+        }
+    }
+    None
+}
+
+// ---------------------------------------------------------------------------------------
+// snapshots of HTTP messages for the "identical message" comparison
+
+#[derive(Clone, Debug, PartialEq, Eq)]
+pub struct Msg {
+    /// method (requests) or status code (responses)
+    pub head: String,
+    pub uri: String,
+    /// (name, value bytes), sorted
+    pub headers: Vec<(String, Vec<u8>)>,
+    pub body: Vec<u8>,
+}
+
+fn headers_of(h: &http::HeaderMap) -> Vec<(String, Vec<u8>)> {
+    let mut v: Vec<(String, Vec<u8>)> =
+        h.iter().map(|(k, v)| (k.as_str().to_owned(), v.as_bytes().to_vec())).collect();
+    v.sort();
+    v
+}
+
+impl Msg {
+    pub fn of_request(r: &http::Request<Vec<u8>>) -> Msg {
+        Msg {
+            head: r.method().as_str().to_owned(),
+            uri: r.uri().to_string(),
+            headers: headers_of(r.headers()),
+            body: r.body().clone(),
+        }
+    }
+    pub fn of_response(r: &http::Response<Vec<u8>>) -> Msg {
+        Msg {
+            head: r.status().as_u16().to_string(),
+            uri: String::new(),
+            headers: headers_of(r.headers()),
+            body: r.body().clone(),
+        }
+    }
+    pub fn show(&self) -> String {
+        let mut s = format!("{} {}", self.head, self.uri);
+        for (k, v) in &self.headers {
+            let _ = write!(s, " | {k}: {}", String::from_utf8_lossy(v));
+        }
+        let _ = write!(s, " | body={}", String::from_utf8_lossy(&self.body));
+        s
+    }
+}
+
+// ---------------------------------------------------------------------------------------
+// field values of the synthetic endpoints
+
+/// One enumerated field value: absent (optional fields), a string, or a list of strings.
+#[derive(Clone, Debug, PartialEq, Eq, Serialize, Deserialize)]
+pub enum FV {
+    Absent,
+    S(String),
+    L(Vec<String>),
+}
+
+#[derive(Clone, Copy, Debug, PartialEq, Eq)]
+pub enum FK {
+    Str,
+    Opt,
+    List,
+}
+
+impl FV {
+    pub fn is_trivial(&self) -> bool {
+        match self {
+            FV::Absent => true,
+            FV::S(s) => s.is_empty(),
+            FV::L(l) => l.is_empty(),
+        }
+    }
+    pub fn show(&self) -> String {
+        match self {
+            FV::Absent => "<absent>".into(),
+            FV::S(s) => s.clone(),
+            FV::L(l) => format!("[{}]", l.join(",")),
+        }
+    }
+    /// strictly simpler values to try while minimising a counterexample
+    pub fn shrinks(&self, kind: FK) -> Vec<FV> {
+        fn del_chars(s: &str) -> Vec<String> {
+            let idx: Vec<usize> = s.char_indices().map(|(i, _)| i).collect();
+            let mut out = vec![];
+            // last character first: `%2Fa` shrinks to `%2F`, not to `%2a`
+            for (n, &i) in idx.iter().enumerate().rev() {
+                let end = idx.get(n + 1).copied().unwrap_or(s.len());
+                out.push(format!("{}{}", &s[..i], &s[end..]));
+            }
+            out
+        }
+        let mut out = vec![];
+        match self {
+            FV::Absent => {}
+            FV::S(s) => {
+                if kind == FK::Opt {
+                    out.push(FV::Absent);
+                }
+                out.extend(del_chars(s).into_iter().map(FV::S));
+            }
+            FV::L(l) => {
+                for i in 0..l.len() {
+                    let mut m = l.clone();
+                    m.remove(i);
+                    out.push(FV::L(m));
+                }
+                for i in 0..l.len() {
+                    for d in del_chars(&l[i]) {
+                        let mut m = l.clone();
+                        m[i] = d;
+                        out.push(FV::L(m));
+                    }
+                }
+            }
+        }
+        out
+    }
+}
+
+/// Conversion between an enumerated [`FV`] and the Rust type of a synthetic endpoint field.
+pub trait Slot: Sized {
+    const KIND: FK;
+    fn from_fv(v: &FV) -> Self;
+    fn to_fv(&self) -> FV;
+}
+
+impl Slot for String {
+    const KIND: FK = FK::Str;
+    fn from_fv(v: &FV) -> Self {
+        match v {
+            FV::S(s) => s.clone(),
+            _ => String::new(),
+        }
+    }
+    fn to_fv(&self) -> FV {
+        FV::S(self.clone())
+    }
+}
+
+impl Slot for Option<String> {
+    const KIND: FK = FK::Opt;
+    fn from_fv(v: &FV) -> Self {
+        match v {
+            FV::S(s) => Some(s.clone()),
+            _ => None,
+        }
+    }
+    fn to_fv(&self) -> FV {
+        match self {
+            Some(s) => FV::S(s.clone()),
+            None => FV::Absent,
+        }
+    }
+}
+
+impl Slot for Vec<String> {
+    const KIND: FK = FK::List;
+    fn from_fv(v: &FV) -> Self {
+        match v {
+            FV::L(l) => l.clone(),
+            _ => vec![],
+        }
+    }
+    fn to_fv(&self) -> FV {
+        FV::L(self.clone())
+    }
+}
+
+/// raw bodies: the bytes of the string
+impl Slot for Vec<u8> {
+    const KIND: FK = FK::Str;
+    fn from_fv(v: &FV) -> Self {
+        match v {
+            FV::S(s) => s.as_bytes().to_vec(),
+            _ => vec![],
+        }
+    }
+    fn to_fv(&self) -> FV {
+        FV::S(String::from_utf8_lossy(self).into_owned())
+    }
+}
+
+/// query_all maps: the list is read as consecutive (key, value) pairs (a trailing key gets "")
+impl Slot for Vec<(String, String)> {
+    const KIND: FK = FK::List;
+    fn from_fv(v: &FV) -> Self {
+        match v {
+            FV::L(l) => l
+                .chunks(2)
+                .map(|c| (c[0].clone(), c.get(1).cloned().unwrap_or_default()))
+                .collect(),
+            _ => vec![],
+        }
+    }
+    fn to_fv(&self) -> FV {
+        FV::L(self.iter().flat_map(|(k, v)| [k.clone(), v.clone()]).collect())
+    }
+}
+
+/// Values a field of `kind` takes: `hot` = every string of ≤ `len` symbols (the enumerated
+/// dimension), otherwise the small cold set (≤ 1 symbol).
+pub fn values_of(kind: FK, len: usize) -> Vec<FV> {
+    let strs = strings_upto(&ALPHABET, len);
+    match kind {
+        FK::Str => strs.into_iter().map(FV::S).collect(),
+        FK::Opt => std::iter::once(FV::Absent).chain(strs.into_iter().map(FV::S)).collect(),
+        FK::List => {
+            // length 0, 1 (every string), 2 (every string × {"", "a", "&"}, both orders)
+            let short: Vec<String> = ["", "a", "&"].iter().map(|s| (*s).to_owned()).collect();
+            let mut out = vec![FV::L(vec![])];
+            out.extend(strs.iter().map(|s| FV::L(vec![s.clone()])));
+            for s in &strs {
+                for t in &short {
+                    out.push(FV::L(vec![s.clone(), t.clone()]));
+                    if s != t {
+                        out.push(FV::L(vec![t.clone(), s.clone()]));
+                    }
+                }
+            }
+            let mut seen = std::collections::HashSet::new();
+            out.retain(|v| seen.insert(format!("{v:?}")));
+            out
+        }
+    }
+}
+
+/// cold values of a kind (what the non-enumerated fields cycle through): every value of ≤ 1
+/// symbol for endpoints with ≤ 3 fields, three representatives otherwise
+pub fn cold_values(kind: FK, n_fields: usize) -> Vec<FV> {
+    match kind {
+        FK::Str | FK::Opt if n_fields <= 3 => values_of(kind, 1),
+        FK::Str => ["", "a", "&"].iter().map(|s| FV::S((*s).to_owned())).collect(),
+        FK::Opt => vec![FV::Absent, FV::S(String::new()), FV::S("a".into())],
+        FK::List => vec![FV::L(vec![]), FV::L(vec!["a".into()]), FV::L(vec!["".into(), "&".into()])],
+    }
+}
+
+/// `m` can be obtained from `c` by the shrink steps of [`FV::shrinks`] (character deletions,
+/// element deletions, present → absent)
+pub fn embeds(m: &FV, c: &FV) -> bool {
+    fn subseq(m: &str, c: &str) -> bool {
+        let mut it = c.chars();
+        m.chars().all(|x| it.any(|y| y == x))
+    }
+    fn list(m: &[String], c: &[String]) -> bool {
+        match m.split_first() {
+            None => true,
+            Some((m0, rest)) => (0..c.len()).any(|i| subseq(m0, &c[i]) && list(rest, &c[i + 1..])),
+        }
+    }
+    match (m, c) {
+        (FV::Absent, _) => true,
+        (FV::S(m), FV::S(c)) => subseq(m, c),
+        (FV::L(m), FV::L(c)) => list(m, c),
+        _ => false,
+    }
+}
+
+#[cfg(test)]
+mod tests {
+    use super::*;
+    #[test]
+    fn decode() {
+        assert_eq!(percent_decode("a%2Fb").as_deref(), Some("a/b"));
+        assert_eq!(percent_decode("%").as_deref(), Some("%"));
+        assert_eq!(percent_decode("%a").as_deref(), Some("%a"));
+        assert_eq!(percent_decode("%2").as_deref(), Some("%2"));
+        assert_eq!(percent_decode("%25").as_deref(), Some("%"));
+        assert_eq!(percent_decode("%C3%A9").as_deref(), Some("é"));
+        assert_eq!(percent_decode("%aa"), None);
+        assert_eq!(route("/x/:a/y", "/x/b%20c/y"), Some(vec!["b c".to_owned()]));
+        assert_eq!(route("/x/:a/y", "/x/b/c/y"), None);
+        assert!(embeds(&FV::S("%2F".into()), &FV::S("a%2/F".into())));
+        assert!(!embeds(&FV::S("%2F".into()), &FV::S("%F2".into())));
+        assert!(embeds(&FV::L(vec!["".into(), "".into()]), &FV::L(vec!["a".into(), "b".into(), "".into()])));
+        assert!(!embeds(&FV::L(vec!["a".into(), "".into()]), &FV::L(vec!["a".into()])));
+    }
+}
